@@ -37,8 +37,10 @@ def run(ck):
     fragments(ck, "C02.4")
     numbering(ck, "C02.5")
     ck.clause("C02.6", "map coordinates and lengths reach the records at full precision; queries trimmed, references not")
-    from .c17 import no_narrowing
+    from .c17 import no_narrowing, trim_formulae
     no_narrowing(ck, "C02.6")
+    ck.clause("C02.7", "query coordinates and QryLen follow the trim formulae (position - first label, length = last - first + 1; as C17.5)")
+    trim_formulae(ck, "C02.7")
     n = R.run_role_rule(ck, "C02.3", modules={"src.alignment.alignment_results", "src.alignment.aligner"})
     ck.floor("C02 role bindings judged", n, 40)
 
@@ -96,6 +98,14 @@ def column_table(ck, w, r, rule):
         n_corr += 1
         construct = f"column:{col}"
         if len(wa) != 1:
+            v = w.record_values[col]
+            indirect = [x for x in T.subterms(v) if x[0] == "idx" or (x[0] == "mcall" and x[2] in ("get", "__getitem__"))]
+            if len(wa) > 1 and indirect:
+                ck.violation(rule, construct, where_frame,
+                             f"the value of column {col} is not read from the record being written but looked up through another "
+                             f"attribute of it ({', '.join(wa)}): records that share that attribute get each other's value",
+                             found=T.show(v)[:200], required=f"row.{ra}")
+                continue
             raise AnalysisError(f"{where_frame}: value of column {col} does not read exactly one row attribute: {wa}")
         if wa[0] == ra:
             ck.ok(rule, construct, where_frame, f"writer reads row.{wa[0]}, reader stores .{ra}")
